@@ -45,6 +45,21 @@ CHECKS = {
          "Kernel-checked for every string and every integer parameter: $substring is the code-point slice with negative starts from the end, $length($pad(s,n)) = max(|n|, $length(s)) with padding on the correct side, before & c & after = s when c occurs and both return s otherwise, the separator found is the first occurrence, $join($split(s,c),c) = s including the empty separator, limits truncate, $trim leaves no outer whitespace. "
          "Tied to /repo by all strings up to length 2 (quick) / 3 (thorough) over an alphabet of ASCII, 2-, 3- and 4-byte characters, whitespace and separators with parameter grids -5..5 (incl. fractional) and pad/separator strings of length 0..3, random longer strings, and the laws evaluated as JSONata equalities that must be true.",
          "DESIGN.md section 6 C16", "strings.Index/Split/Replace, utf8.RuneCountInString, unicode case mapping (ASCII and Latin-1 in the model), base64 and net/url are standard-library parameters: their round trips are checked on the implementation, the Lean theorem states the contract explicitly."),
+ "C05": ("Lean 4 world model (history independence, tree unchanged) + regenerated write-set obligations (every field/element write of the evaluator packages is on an accounted allow-list; per-call copy of built-ins; chain builds a fresh call) + history correspondence with AST deep comparison through the verif hook",
+         "Kernel-checked: in the model an evaluation is a function of (tree, input): outcomes are independent of any history and the tree is unchanged. The tie to the source is (a) decide-checked obligations over the regenerated write set: every statement writing through a field, element or pointer in eval/callable/env/jsonata/jlib must be on the allow-list (none targets a syntax-tree node, the name/context setters run on a per-call copy made before them, the chain operator builds a new call node, each Eval makes a new environment), and (b) histories of 2..5 Evals on one Expr with other expressions in between, comparing every outcome with a freshly compiled Expr, String() and the parsed tree (verif accessor) before/after.",
+         "DESIGN.md section 6 C05", "The write-set extractor is syntactic (go/ast): it lists assignments and inc/dec whose target is a selector, index or dereference; writes through reflect or method calls are covered by the mutator list of C07."),
+ "C07": ("Lean 4 theorems on the transform model (argument errors, untag(tag v) = v, nothing selected => equal copy) + regenerated mutator call-site obligations and event order of transformationCallable.Call + before/after deep comparison of inputs and registered variables on every Eval + transform results vs model",
+         "Kernel-checked: transform argument-count/type rules; location tagging is invertible so a transform that selects nothing returns an equal copy; decide-checked facts: every reflect Set/SetMapIndex, sort.* and rand.* call site is on the allow-list with a fresh receiver, maps are written only by updateEntries/deleteEntries, and Call clones before evaluating the pattern and computes the ownership set before writing. "
+         "Tied to /repo by deep-comparing the input (with nulls, shared sub-structures, empty containers) and a registered variable before and after every Eval of the full generator (sort/reverse/append/shuffle/zip/merge/distinct/order-by/grouping over-weighted) and of transforms with context-relative, root-anchored and variable-anchored patterns; transform results are compared with the model.",
+         "DESIGN.md section 6 C07", "Immutability is a frame condition of Go's heap; the model's values are immutable, so the theorem side is carried by the regenerated mutator/write facts. Aliasing of update values into the copy is outside the model."),
+ "C09": ("Lean 4: every model function is total (termination checked by Lean); no-crash theorems for operators, argument checking, sort keys, aggregates; regenerated fact: eval's type switch covers all node types; + totality correspondence (recover + wall-clock limit) over type-directed and type-chaotic programs",
+         "Kernel-checked: the model's operators, argument-count/type checks, sort-key bookkeeping and aggregates only ever return a value, no value or an evaluation error (never the model's panic/fuel outcome) for all operand kinds; eval.go's node dispatch covers exactly the model's node types (decide over the regenerated list). "
+         "Tied to /repo by running every generated program (every node type, every built-in with every arity, functions as data, missing arguments, arrays in arrays, number/picture edge values) under recover and a wall-clock limit: any panic or timeout is a violation with the program and input as replay.",
+         "DESIGN.md section 6 C09", "Panics originating in Go's reflect package (Len on an interface value, Set on a zero Value, failed type assertions) are outside the model: for those the property is carried by the correspondence alone. Sizes of ranges/pads are bounded as the property's quantifier says."),
+ "C10": ("Lean 4 theorems: ErrUndefined iff no value, finiteness of arithmetic/aggregate results, closure of containers, EvalBytes = decode;eval;encode specification; regenerated facts on Eval/EvalBytes shape; + result type walk, json.Marshal, EvalBytes parity and undefined-parity with the model on every generated case",
+         "Kernel-checked: the final conversion reports ErrUndefined exactly for 'no value'; arithmetic operators and $sum/$average return only finite numbers; containers of JSON-closed members are closed; EvalBytes succeeds exactly when the input decodes, Eval succeeds and the value encodes, returning that encoding; decide-checked facts: EvalBytes is Unmarshal/Eval/Marshal. "
+         "Tied to /repo by walking the Go type of every nil-error result (JSON types only, finite numbers, string keys, functions), json.Marshal must succeed, EvalBytes must agree with Eval (success parity and equal encoding; nested-multiset comparison where Go map order is unspecified), ErrUndefined exactly when the model has no value; malformed input bytes must be rejected like encoding/json.",
+         "DESIGN.md section 6 C10", "One known finding (cyclic result of a self-inserting transform) is listed in known_findings.json with a specific matcher."),
 }
 
 NOT_YET = {}
@@ -93,7 +108,7 @@ def main():
     json.dump(m, open(os.path.join(ROOT, "MANIFEST.json"), "w"), indent=1)
     print("MANIFEST.json: %d checks, %d not_applicable" % (len(checks), len(na)))
 
-HOOK_COMMITS = []
+HOOK_COMMITS = ["86f057e"]
 
 if __name__ == "__main__":
     main()
